@@ -1720,7 +1720,9 @@ fn shape_case(ctx: &mut Ctx, i: usize) {
             // check
             let mut sp = vsponge.clone();
             let out = guarded(|| PC::check(&env.vk, env.comms.iter(), &z, vals.to_vec(), &pm, &mut sp, None));
-            let vx = sp.challenges();
+            // a refusal before the accumulation squeezes nothing: the model still gets the challenges this
+            // sponge would give (those of the prover), so that it must refuse for the same reason
+            let vx = if sp.challenges().len() < npoly { xis.clone() } else { sp.challenges() };
             let o = outcome_of(out);
             if claim == "false" && accepted(&o) && !name.starts_with("trapdoor-forge") {
                 ctx.rep.expect_fail(&cid, &format!("pst13/false-value-accepted/check/{}", kind), &format!("check accepted a false value with a proof of shape `{}`", name), txt.clone());
@@ -1752,7 +1754,7 @@ fn shape_case(ctx: &mut Ctx, i: usize) {
             let rs = crate::kzg::replay_u128(&rng, 1);
             let mut bsp = vsponge.clone();
             let bout = guarded(|| PC::batch_check(&env.vk, env.comms.iter(), &qs, &evals, &vec![pm.clone()], &mut bsp, &mut rng));
-            let bx = bsp.challenges();
+            let bx = if bsp.challenges().len() < npoly { xis.clone() } else { bsp.challenges() };
             let bo = outcome_of(bout);
             if claim == "false" && accepted(&bo) && !name.starts_with("trapdoor-forge") {
                 ctx.rep.expect_fail(&cid, &format!("pst13/false-value-accepted/batch_check/{}", kind), &format!("batch_check accepted a false value with a proof of shape `{}` (check on the same input: {:?})", name, o), txt.clone());
@@ -1782,6 +1784,45 @@ fn shape_case(ctx: &mut Ctx, i: usize) {
                 &format!("pst13 shape nv={} s={} polys={} surplus={} shape={} claim={}", nv, env.s, npoly, extra, name, claim),
                 Some(format!("pst13-c03/{}/{}/{}/{}/{}", nv, npoly, extra, kind, claim)),
             );
+        }
+    }
+    // the number of proofs in a batch: none, and two for one point label
+    for (name, plist) in [("proofs-0", vec![]), ("proofs-2", vec![(ws.clone(), rv), (ws.clone(), rv)])] {
+        for (claim, vals) in [("true", &values), ("false", &false_values)] {
+            let cid = format!("{}/{}/{}", id, name, claim);
+            let mut evals: ark_poly_commit::Evaluations<Vec<Fr>, Fr> = ark_poly_commit::Evaluations::new();
+            for j in 0..npoly {
+                evals.insert((format!("p{}", j), z.clone()), vals[j]);
+            }
+            let proofs: Vec<Proof<Bls12_381>> = plist.iter().map(|(w, r)| Proof::<Bls12_381> { w: g1s(w), random_v: *r }).collect();
+            let rs = crate::kzg::replay_u128(&rng, 2);
+            let mut bsp = vsponge.clone();
+            let bout = guarded(|| PC::batch_check(&env.vk, env.comms.iter(), &qs, &evals, &proofs, &mut bsp, &mut rng));
+            let bx = if bsp.challenges().len() < npoly { xis.clone() } else { bsp.challenges() };
+            let bo = outcome_of(bout);
+            if matches!(bo, ImplOutcome::Ok(_)) {
+                ctx.rep.expect_fail(
+                    &cid,
+                    &format!("pst13/false-claim-accepted/shape-{}", name),
+                    &format!("batch_check answered {:?} for {} proofs and one point label", bo, proofs.len()),
+                    format!("{}# point {}\n# claimed values {}\n# proofs: {}\n", env.head, wire::fes(&z), wire::fes(vals), proofs.len()),
+                );
+            }
+            ctx.ses.ask(
+                &format!("{}/batch", cid),
+                env.trap
+                    .key_args(Req::new("c15.batch_check_q"), env.s)
+                    .arg("css", wire::fess(&[env.c_scalars.clone()]))
+                    .arg("vss", wire::fess(&[vals.to_vec()]))
+                    .arg("zs", wire::fess(&[z.clone()]))
+                    .arg("ws", wire::fess(&plist.iter().map(|p| p.0.clone()).collect::<Vec<_>>()))
+                    .arg("rvs", Val::L(plist.iter().map(|p| wire::opt_fe(&p.1)).collect()))
+                    .arg("xis", wire::fes(&bx))
+                    .arg("rs", wire::fes(&rs)),
+                bo.clone(),
+            );
+            ctx.rep.count(&format!("pst13/c03-{}-{}-batch-{}", name, claim, if accepted(&bo) { "accepts" } else if matches!(bo, ImplOutcome::Ok(_)) { "rejects" } else { "aborts" }));
+            ctx.rep.case(&format!("pst13 shape nv={} polys={} {} claim={}", nv, npoly, name, claim), Some(format!("pst13-c03/{}/{}/{}/{}", nv, npoly, name, claim)));
         }
     }
     let _ = (env.d, &env.hbs);
